@@ -664,6 +664,10 @@ class C01(C.Check):
                 if sub[0] == "scal":
                     c = complex(*sub[1][0]) if sub[1][0][1] else sub[1][0][0]
                     dct[key], m = ift.ScalingOperator(ift.DomainTuple.make(doms[key]), c), complex(*sub[1][0]) * np.eye(n)
+                elif sub[0] == "mat":      # a dense block: does not commute with the other block kinds
+                    v = np.array([complex(*x) for x in sub[1][:n * n]]).reshape(n, n)
+                    v = v.real if np.all(v.imag == 0) else v
+                    dct[key], m = ift.MatrixProductOperator(doms[key], v), v
                 else:
                     v = np.array([complex(*x) for x in sub[1][:n]])
                     v = v.real if np.all(v.imag == 0) else v
@@ -701,8 +705,9 @@ class C01(C.Check):
         def block():
             subs = []
             for key in "ab":
-                r = int(rng.integers(3))
-                subs.append(None if r == 0 else (["scal", [cplx(SCALARS[int(rng.integers(len(SCALARS)))])]] if r == 1 else ["diag", vals(3)]))
+                r = int(rng.integers(4))
+                subs.append(None if r == 0 else (["scal", [cplx(SCALARS[int(rng.integers(len(SCALARS)))])]] if r == 1 else
+                                                 ["diag", vals(3)] if r == 2 else ["mat", vals(9)]))
             return ["block", subs]
         def full_sum():
             """a SumOperator D -> D with several (domain, target) groups"""
@@ -787,6 +792,21 @@ class C01(C.Check):
         rng = ctx.rng(41)
         n = 0
         todo = [c["expr"] for c in ctx.corpus() if c.get("cfg") == "multi"]
+        # fixed cases: products / sums of block-diagonal operators whose blocks on the same key do
+        # NOT commute (dense x dense, dense x diagonal), in both orders and under adjoint / scaling
+        def V(k):
+            r = np.random.default_rng(100 + k)
+            return [cplx(complex(int(a), int(b))) for a, b in zip(r.integers(-2, 3, size=9), r.integers(-1, 2, size=9))]
+        B1 = ["block", [["mat", V(1)], ["diag", V(2)[:3]]]]
+        B2 = ["block", [["diag", V(3)[:3]], ["mat", V(4)]]]
+        B3 = ["block", [["mat", V(5)], ["mat", V(6)]]]
+        B4 = ["block", [["mat", V(7)], None]]
+        for x, y in [(B1, B2), (B2, B1), (B3, B1), (B1, B3), (B3, B3), (B4, B3), (B3, B4)]:
+            todo.append(["comp", x, y])
+            todo.append(["adj", ["comp", x, y]])
+            todo.append(["comp", ["scale", cplx(2), x], ["comp", y, x]])
+            todo.append(["sum", ["comp", x, y], ["comp", y, x], [0, 1]])
+            todo.append(["sum", x, ["sum", y, ["comp", x, y], [0, 1]], [0, 1]])      # A - (B - C)
         for i in range(60 if ctx.quick else 600):
             todo.append(self.multi_gen(rng, int(rng.integers(0, 3)), top=True))
         for e in todo:
